@@ -18,6 +18,7 @@ import (
 	"sort"
 	"strings"
 	"time"
+	"unicode"
 
 	"cuelang.org/go/mod/module"
 	"cuelang.org/go/mod/modzip"
@@ -49,7 +50,10 @@ var c15mv = module.MustNewVersion("example.com/m@v0", "v0.0.1")
 var c15modcue = []byte("module: \"example.com/m@v0\"\nlanguage: version: \"v0.8.0\"\n")
 
 // name elements: benign and hostile
-var c15good = []string{"a", "b", "B2", "x.cue", "y.cue", "pkg", "sub", "data.json", "README.md", "é", "日本", "a b", "-x", "_h", "a.b.c", "LICENSE", "lic", "deep", "v2", "k8s", "ǆ"}
+var c15good = []string{"a", "b", "B2", "x.cue", "y.cue", "pkg", "sub", "data.json", "README.md", "é", "日本", "a b", "-x", "_h", "a.b.c", "LICENSE", "lic", "deep", "v2", "k8s", "ǆ",
+	// letters whose case-folded form is shorter in UTF-8 (Kelvin sign, long s, Angstrom sign, Ohm sign), alone and
+	// repeated, so that they occur as directory components above short file names and next to their ASCII twins
+	"\u212a", "\u212a\u212a", "\u017f\u017f\u017f", "\u212b\u2126", "\u212a8s", "k", "kk", "sss"}
 var c15bad = []string{"..", ".", "", "a\\b", "c:", "*", "a?", "a<b", "con", "CON", "aux.txt", "nul", "com1", "lpt9.x", "a.", "a ", " a", "~1", "a\x00b", "a\nb", "a\tb", "\u202e", "a|b", "\"q\"", "a:b", ".git", "vendor", "cue.mod", "CUE.MOD", "Cue.Mod", "module.cue", "MODULE.CUE", "local-module.cue", ".hg_archival.txt", "ß", "SS", "ss", "K", "K", "k", "A", strings.Repeat("l", 260), "\xff", "a/../b", "İ", "i̇"}
 
 func c15name(r *rand.Rand, hostile bool) string {
@@ -283,23 +287,37 @@ func c15roundTrip(c *Ctx, r *rand.Rand, root string, big bool) {
 	c.Eval(1)
 	files := []c15file{{"cue.mod/module.cue", c15modcue, 0o644}}
 	seen := map[string]bool{"cue.mod/module.cue": true}
+	dirSpell := map[string]string{"cue.mod": "cue.mod"}
 	n := 1 + r.IntN(8)
 	for k := 0; k < n; k++ {
 		p := c15name(r, false)
-		if seen[strings.ToLower(p)] {
+		if seen[c15fold(p)] {
 			continue
 		}
 		// avoid file/dir collisions in the generator itself
 		coll := false
 		for q := range seen {
-			if strings.HasPrefix(q, strings.ToLower(p)+"/") || strings.HasPrefix(strings.ToLower(p), q+"/") {
+			if strings.HasPrefix(q, c15fold(p)+"/") || strings.HasPrefix(c15fold(p), q+"/") {
 				coll = true
+			}
+		}
+		// two directories that are equal under case folding but spelled differently collide as well
+		for i := 0; i < len(p); i++ {
+			if p[i] == '/' {
+				if sp, ok := dirSpell[c15fold(p[:i])]; ok && sp != p[:i] {
+					coll = true
+				}
 			}
 		}
 		if coll {
 			continue
 		}
-		seen[strings.ToLower(p)] = true
+		for i := 0; i < len(p); i++ {
+			if p[i] == '/' {
+				dirSpell[c15fold(p[:i])] = p[:i]
+			}
+		}
+		seen[c15fold(p)] = true
 		sz := r.IntN(200)
 		if r.IntN(10) == 0 {
 			sz = 0
@@ -469,7 +487,7 @@ func c15agreement(c *Ctx, r *rand.Rand) {
 func c15class(p string, set []string) string {
 	for _, q := range set {
 		// a second cue.mod component below the root cue.mod makes the file-list check see a submodule
-		lq := strings.ToLower(q)
+		lq := c15fold(q)
 		if rest, ok := strings.CutPrefix(lq, "cue.mod/"); ok && (strings.Contains("/"+rest+"/", "/cue.mod/")) {
 			return "nested-cuemod-in-set"
 		}
@@ -479,9 +497,9 @@ func c15class(p string, set []string) string {
 		}
 	}
 	// a name that is also a directory of another entry (compared case-insensitively, as the checkers do)
-	lp := strings.ToLower(p)
+	lp := c15fold(p)
 	for _, q := range set {
-		lq := strings.ToLower(q)
+		lq := c15fold(q)
 		if q != p && (strings.HasPrefix(lq, lp+"/") || strings.HasPrefix(lp, lq+"/")) {
 			return "file-is-also-directory"
 		}
@@ -623,4 +641,20 @@ func init() {
 			}
 		})
 	})
+}
+
+// c15fold maps every rune to the smallest member of its orbit under Unicode simple case folding: two names
+// collide exactly when their folded forms are equal (strings.ToLower does not see U+017F vs s).
+func c15fold(s string) string {
+	var b strings.Builder
+	for _, r := range s {
+		m := r
+		for x := unicode.SimpleFold(r); x != r; x = unicode.SimpleFold(x) {
+			if x < m {
+				m = x
+			}
+		}
+		b.WriteRune(unicode.ToLower(m)) // one representative per orbit; lower case for ASCII, like strings.ToLower
+	}
+	return b.String()
 }
